@@ -222,11 +222,19 @@ func (b *BundleAdd) UnmarshalBinary(data []byte) error {
 	n += 2
 	b.Flags = binary.BigEndian.Uint16(data[n:])
 	n += 2
-	b.Message, err = Parse(data[n:])
+	// the embedded message ends where its own header says; the properties follow it
+	if len(data) < n+4 {
+		return errors.New("the []byte is too short to unmarshal the message of a BundleAdd")
+	}
+	msgLen := int(binary.BigEndian.Uint16(data[n+2:]))
+	if msgLen < 8 || msgLen > len(data)-n {
+		return errors.New("the message of a BundleAdd is shorter than its header or longer than the data")
+	}
+	b.Message, err = Parse(data[n : n+msgLen])
 	if err != nil {
 		return err
 	}
-	n += int(b.Message.Len())
+	n += msgLen
 	if n < len(data) {
 		b.Properties = make([]BundlePropertyExperimenter, 0)
 		for n < len(data) {
